@@ -186,7 +186,8 @@ def sm_setup(ctx):
     cfg = {"non-empty-namespace": Rec("Namespace", methods={"__bool__": lambda c, s_, a, k: True}), "empty-namespace": Rec("Namespace", methods={"__bool__": lambda c, s_, a, k: False}),
            "non-empty-dict": {"a": 1, "__path__": 2}, "empty-dict": {}, "None": None}[kind]
     copy = Rec("copy without meta keys")
-    calls = {"recreate_branches": lambda c, a, k: (c.event("recreate", a[0], k.get("skip_keys")), copy)[1]}
+    # contract of recreate_branches (its own unit): a Namespace / dict / list comes back as a new object, anything else (None) as it is
+    calls = {"recreate_branches": lambda c, a, k: (c.event("recreate", a[0], k.get("skip_keys")), copy if a[0] is not None else None)[1]}
     meta = {"__default_config__", "__path__", "__orig__"}
     return Setup(env={"cfg": cfg}, calls=calls, consts={"meta_keys": meta}, data=dict(kind=kind, cfg=cfg, copy=copy, meta=meta))
 
@@ -194,11 +195,13 @@ def sm_setup(ctx):
 def sm_post(ctx, st, result):
     d = st.data
     ev = [e for e in ctx.events if e[0] == "recreate"]
-    if d["kind"].startswith("non-empty"):
-        ctx.oblige("post", f"a-configuration-with-content-is-returned-as-a-copy-without-the-meta-keys(the caller's object is not the result)[{d['kind']}]", result is d["copy"] and len(ev) == 1 and ev[0][1] is d["cfg"] and ev[0][2] is d["meta"])
+    if d["kind"] != "None":
+        # also an *empty* configuration: instantiate_classes and dump write into what strip_meta returns (an empty Namespace given to
+        # instantiate_classes of a parser with class groups came back holding the instances - the caller's own object; fixed)
+        ctx.oblige("post", f"a-configuration(empty or not)-is-returned-as-a-copy-without-the-meta-keys:the-caller's-object-is-never-the-result[{d['kind']}]",
+                   result is d["copy"] and len(ev) == 1 and ev[0][1] is d["cfg"] and ev[0][2] is d["meta"])
     else:
-        # nothing to strip and nothing a caller could later damage through the result: an empty / missing configuration is returned as it is
-        ctx.oblige("post", f"an-empty-configuration-has-nothing-to-strip[{d['kind']}]", result is d["cfg"] and not ev)
+        ctx.oblige("post", "no-configuration(None)=>None", result is None)
 
 
 def clone_setup(ctx):
